@@ -192,6 +192,66 @@ fn hook_buffered<const N: usize>(_acc: &CobsAccumulator<N>) -> Vec<u8> {
     Vec::new()
 }
 
+/// Where the accumulator under test lives: in a heap box (histories that move it around, and under
+/// Miri), or — everything else — in the guarded arena, its last byte flush against a PROT_NONE page
+/// and canaries in front, so that a write outside the object faults or is seen.
+enum Holder<const N: usize> {
+    Boxed(Box<CobsAccumulator<N>>),
+    #[cfg(not(miri))]
+    Arena(*mut CobsAccumulator<N>),
+}
+
+impl<const N: usize> Holder<N> {
+    fn new(boxed: bool) -> Self {
+        #[cfg(not(miri))]
+        if !boxed && std::mem::size_of::<CobsAccumulator<N>>() % std::mem::align_of::<CobsAccumulator<N>>() == 0 {
+            let size = std::mem::size_of::<CobsAccumulator<N>>();
+            // (a history that ended early has not released its region: restore the pattern first)
+            let p = crate::arena::with_arena(|a| {
+                let _ = a.raw_release(size);
+                a.raw_end(size)
+            }) as *mut CobsAccumulator<N>;
+            if (p as usize) % std::mem::align_of::<CobsAccumulator<N>>() == 0 {
+                unsafe { p.write(CobsAccumulator::new()) };
+                return Holder::Arena(p);
+            }
+        }
+        let _ = boxed;
+        Holder::Boxed(Box::new(CobsAccumulator::new()))
+    }
+    /// offset (relative to the object) of a byte in front of it that was overwritten, if any
+    fn release(self) -> Option<isize> {
+        match self {
+            Holder::Boxed(_) => None,
+            #[cfg(not(miri))]
+            Holder::Arena(_) => {
+                let size = std::mem::size_of::<CobsAccumulator<N>>();
+                crate::arena::with_arena(|a| a.raw_release(size))
+            }
+        }
+    }
+}
+
+impl<const N: usize> std::ops::Deref for Holder<N> {
+    type Target = CobsAccumulator<N>;
+    fn deref(&self) -> &CobsAccumulator<N> {
+        match self {
+            Holder::Boxed(b) => b,
+            #[cfg(not(miri))]
+            Holder::Arena(p) => unsafe { &**p },
+        }
+    }
+}
+impl<const N: usize> std::ops::DerefMut for Holder<N> {
+    fn deref_mut(&mut self) -> &mut CobsAccumulator<N> {
+        match self {
+            Holder::Boxed(b) => b,
+            #[cfg(not(miri))]
+            Holder::Arena(p) => unsafe { &mut **p },
+        }
+    }
+}
+
 /// One real feed call. `Err(msg)` = the call panicked.
 fn feed_once<const N: usize>(
     acc: &mut CobsAccumulator<N>,
@@ -335,7 +395,7 @@ fn c08_history<const N: usize>(
     lens: &[usize],
     out: &mut Outcome<AccTrace>,
 ) -> bool {
-    let mut acc: Box<CobsAccumulator<N>> = Box::new(CobsAccumulator::new());
+    let mut acc: Holder<N> = Holder::new(t.relocate && N <= 1024);
     let mut other: Option<Box<CobsAccumulator<N>>> = None;
     let mut ncall_total = 0usize;
     let mut rawbuf: Vec<u8> = Vec::new();
@@ -422,8 +482,10 @@ fn c08_history<const N: usize>(
                 // stay alive for the whole history, so code that kept a pointer into the old
                 // location misbehaves deterministically instead of corrupting the heap.
                 let o = other.get_or_insert_with(|| Box::new(CobsAccumulator::new()));
-                std::mem::swap(&mut **o, &mut *acc);
-                std::mem::swap(o, &mut acc);
+                if let Holder::Boxed(b) = &mut acc {
+                    std::mem::swap(&mut **o, &mut **b);
+                    std::mem::swap(o, b);
+                }
             }
             let call = match feed_once::<N>(&mut acc, t.borrowed, pos, window) {
                 Ok(c) => c,
@@ -594,6 +656,13 @@ fn c08_history<const N: usize>(
         if t.tail.len() == N {
             out.probe(p8::TAIL_EXACT_N);
         }
+    }
+    if let Some(off) = acc.release() {
+        fail!(
+            "out-of-bounds-write",
+            "a byte {} bytes in front of the accumulator object was overwritten during this history",
+            -off
+        );
     }
     if nontrivial {
         out.sigs.push(sig.finish());
@@ -1534,7 +1603,7 @@ fn c09_history<const N: usize>(
             return false;
         }};
     }
-    let mut acc: Box<CobsAccumulator<N>> = Box::new(CobsAccumulator::new());
+    let mut acc: Holder<N> = Holder::new(t.relocate && N <= 1024);
     let mut other: Option<Box<CobsAccumulator<N>>> = None;
     let mut ncall_total = 0usize;
     let mut rawbuf: Vec<u8> = Vec::new();
@@ -1559,8 +1628,10 @@ fn c09_history<const N: usize>(
                 // stay alive for the whole history, so code that kept a pointer into the old
                 // location misbehaves deterministically instead of corrupting the heap.
                 let o = other.get_or_insert_with(|| Box::new(CobsAccumulator::new()));
-                std::mem::swap(&mut **o, &mut *acc);
-                std::mem::swap(o, &mut acc);
+                if let Holder::Boxed(b) = &mut acc {
+                    std::mem::swap(&mut **o, &mut **b);
+                    std::mem::swap(o, b);
+                }
             }
             let call = match feed_once::<N>(&mut acc, t.borrowed, pos, window) {
                 Ok(c) => c,
@@ -1645,6 +1716,13 @@ fn c09_history<const N: usize>(
         cstart += cl;
     }
     out.extra[X_FEED_CALLS] += calls.len() as u64;
+    if let Some(off) = acc.release() {
+        fail!(
+            "never-panics",
+            "a byte {} bytes in front of the accumulator object was overwritten: the accumulator wrote outside its own memory",
+            -off
+        );
+    }
 
     // per-segment clauses
     let mut sig = Fnv::new();
